@@ -680,7 +680,7 @@ def h_tracker_sweep_w_error(i):
     return {"reproduced": not ok, "observed": obs, "expected": {"calls": ["a", "b", "c"], "escaped": None}}
 
 
-_F11_PROG = 'import os, sys, time, tempfile\nos.environ["LOKY_MAX_CPU_COUNT"] = "1"\nsys.path.insert(0, "/repo")\nfrom loky import get_reusable_executor\nN = 6\nd = tempfile.mkdtemp(prefix="f11-")\ndef task(i, d, n, wait):\n    import os, time\n    open(os.path.join(d, f"started-{i}"), "w").close()\n    t0 = time.time()\n    while time.time() - t0 < wait:\n        if len([f for f in os.listdir(d) if f.startswith("started-")]) >= n:\n            return True\n        time.sleep(0.05)\n    return False\nif __name__ == "__main__":\n    if os.environ.get("F11_MODE") == "resize":\n        get_reusable_executor(max_workers=1, timeout=30).submit(int, 0).result()\n    ex = get_reusable_executor(max_workers=N, timeout=30)\n    futs = [ex.submit(task, i, d, N, 8) for i in range(N)]\n    time.sleep(4)\n    started = len([f for f in os.listdir(d) if f.startswith("started-")])\n    print("call queue capacity:", ex._call_queue._maxsize, "max_workers:", ex._max_workers, "workers:", len(ex._processes))\n    print("tasks running simultaneously after 4s:", started, "of", N)\n    res = [f.result() for f in futs]\n    print("each task saw all running:", res)\n    ok = started == N and all(res)\n    print("PASS" if ok else "FAIL")\n    ex.shutdown(kill_workers=True)\n    os._exit(0 if ok else 1)\n'
+_F11_PROG = 'import os, sys, time, tempfile\nos.environ["LOKY_MAX_CPU_COUNT"] = "1"\nsys.path.insert(0, "/repo")\nfrom loky import get_reusable_executor\nN = 6\nd = tempfile.mkdtemp(prefix="f11-", dir=os.environ.get("F11_DIR"))\ndef task(i, d, n, wait):\n    import os, time\n    open(os.path.join(d, f"started-{i}"), "w").close()\n    t0 = time.time()\n    while time.time() - t0 < wait:\n        if len([f for f in os.listdir(d) if f.startswith("started-")]) >= n:\n            return True\n        time.sleep(0.05)\n    return False\nif __name__ == "__main__":\n    if os.environ.get("F11_MODE") == "resize":\n        get_reusable_executor(max_workers=1, timeout=30).submit(int, 0).result()\n    ex = get_reusable_executor(max_workers=N, timeout=30)\n    futs = [ex.submit(task, i, d, N, 8) for i in range(N)]\n    time.sleep(4)\n    started = len([f for f in os.listdir(d) if f.startswith("started-")])\n    print("call queue capacity:", ex._call_queue._maxsize, "max_workers:", ex._max_workers, "workers:", len(ex._processes))\n    print("tasks running simultaneously after 4s:", started, "of", N)\n    res = [f.result() for f in futs]\n    print("each task saw all running:", res)\n    ok = started == N and all(res)\n    print("PASS" if ok else "FAIL")\n    ex.shutdown(kill_workers=True)\n    os._exit(0 if ok else 1)\n'
 
 
 def h_queue_capacity_starvation(i):
@@ -697,7 +697,7 @@ def h_queue_capacity_starvation(i):
         with open(out, "w") as fo:
             try:
                 subprocess.run([sys.executable, path], stdout=fo, stderr=subprocess.DEVNULL, stdin=subprocess.DEVNULL, timeout=100, start_new_session=True,
-                               env={**os.environ, "F11_MODE": str(i.get("mode", "create"))})
+                               env={**os.environ, "F11_MODE": str(i.get("mode", "create")), "F11_DIR": td})
             except subprocess.TimeoutExpired:
                 pass
         lines = [l for l in open(out, errors="replace").read().splitlines() if l and "leaked" not in l]
@@ -850,6 +850,173 @@ def h_second_shutdown_after_nowait(i):
     return {"reproduced": failed, "observed": [l[:300] for l in lines[-2:]], "expected": "worker killed, manager thread joined, future resolved"}
 
 
+_F20_PROG = 'import os, sys, time, threading\nsys.path.insert(0, "/repo")\nfrom loky.process_executor import ProcessPoolExecutor, _ExecutorFlags, ShutdownExecutorError\nif __name__ == "__main__":\n    # the counterexample of the obligation, on the real function\n    fl = _ExecutorFlags(threading.Lock())\n    fl.flag_as_shutting_down(True)\n    fl.flag_as_shutting_down(False)\n    unit_ok = fl.kill_workers is True\n    print("flags after flag_as_shutting_down(True); flag_as_shutting_down(False): kill_workers =", fl.kill_workers)\n    # the same history through the public interface: a forced shutdown that does not wait, then the plain shutdown(wait=True) of a with-block\n    t0 = time.time()\n    with ProcessPoolExecutor(max_workers=2) as ex:\n        f = ex.submit(time.sleep, 25)\n        while not f.running():\n            time.sleep(0.01)\n        time.sleep(0.3)\n        t0 = time.time()\n        ex.shutdown(wait=False, kill_workers=True)\n    dt = time.time() - t0\n    try:\n        e = f.exception(timeout=1)\n    except Exception as x:\n        e = x\n    print("with-block left after %.1fs, future:" % dt, type(e).__name__)\n    ok = unit_ok and dt < 10 and isinstance(e, ShutdownExecutorError)\n    print("PASS" if ok else "FAIL")\n    os._exit(0 if ok else 1)\n'
+
+
+def h_kill_request_withdrawn(i):
+    """F20: shutdown(wait=False, kill_workers=True) while a 25 s task runs, immediately followed by the plain shutdown(wait=True) a with-block issues on
+    exit: the request to kill must stand (the block is left promptly, the future fails with ShutdownExecutorError)."""
+    import subprocess
+    import tempfile
+    repo = sys.argv[3] if len(sys.argv) > 3 else "/repo"
+    with tempfile.TemporaryDirectory(prefix="f20-") as td:
+        path = os.path.join(td, "prog.py")
+        with open(path, "w") as fh:
+            fh.write(_F20_PROG.replace('"/repo"', repr(repo)))
+        out = os.path.join(td, "out.txt")
+        with open(out, "w") as fo:
+            try:
+                subprocess.run([sys.executable, path], stdout=fo, stderr=subprocess.DEVNULL, stdin=subprocess.DEVNULL, timeout=90, start_new_session=True)
+            except subprocess.TimeoutExpired:
+                pass
+        lines = [l for l in open(out, errors="replace").read().splitlines() if l and "leaked" not in l]
+    failed = any(l.startswith("FAIL") for l in lines) or not any(l.startswith("PASS") for l in lines)
+    return {"reproduced": failed, "observed": [l[:300] for l in lines[-3:]], "expected": "kill_workers stays True; the with-block is left within 10 s; the future fails with ShutdownExecutorError"}
+
+
+_F21_PROG = 'import os, sys, threading, time, warnings, signal\nsys.path.insert(0, "/repo")\nwarnings.simplefilter("ignore")\nfrom loky import get_reusable_executor\nimport loky.reusable_executor as rx\ndef alive(pid):\n    try:\n        os.kill(pid, 0)\n    except OSError:\n        return False\n    try:\n        return open("/proc/%d/stat" % pid).read().rsplit(")", 1)[1].split()[0] != "Z"\n    except OSError:\n        return False\nif __name__ == "__main__":\n    ex = get_reusable_executor(max_workers=4, timeout=None)\n    list(ex.map(int, range(8)))\n    before = set(ex._processes)\n    real_sleep = time.sleep\n    state = {"n": 0}\n    class T:\n        # schedule made deterministic: at the first poll of the wait for departures one worker is killed and the manager thread is given time to react\n        @staticmethod\n        def sleep(d):\n            state["n"] += 1\n            if state["n"] == 1:\n                for pid in list(ex._processes):\n                    if alive(pid):\n                        os.kill(pid, signal.SIGKILL)\n                        break\n                real_sleep(1.0)\n            real_sleep(d)\n        def __getattr__(self, n):\n            return getattr(time, n)\n    rx.time = T()\n    out = {}\n    def shrink():\n        try:\n            out["e"] = get_reusable_executor(max_workers=2, timeout=None)\n        except BaseException as e:\n            out["err"] = e\n    t = threading.Thread(target=shrink, daemon=True); t.start(); t.join(30)\n    rx.time = time\n    real_sleep(1.0)\n    spawned = [pid for pid in set(ex._processes or {}) - before]\n    left = [pid for pid in spawned if alive(pid)]\n    print("resize:", "hung" if t.is_alive() else ("raised %r" % (out["err"],) if "err" in out else "returned"), "| executor broken:", ex._flags.broken is not None,\n          "| workers spawned after the break and still alive:", len(left))\n    ok = (not t.is_alive()) and "err" not in out and not left\n    print("PASS" if ok else "FAIL")\n    for pid in left + [p for p in before if alive(p)]:\n        try: os.kill(pid, signal.SIGKILL)\n        except OSError: pass\n    os._exit(0 if ok else 1)\n'
+
+
+def h_resize_after_break(i):
+    """F21: a reusable executor shrunk from 4 to 2 workers; a worker is SIGKILLed during the wait for departures, so the executor is flagged broken and the
+    manager thread kills the workers: the resize must return (the broken instance is replaced by the next factory call) without raising out of
+    get_reusable_executor and without spawning workers into the broken executor."""
+    import subprocess
+    import tempfile
+    repo = sys.argv[3] if len(sys.argv) > 3 else "/repo"
+    with tempfile.TemporaryDirectory(prefix="f21-") as td:
+        path = os.path.join(td, "prog.py")
+        with open(path, "w") as fh:
+            fh.write(_F21_PROG.replace('"/repo"', repr(repo)))
+        out = os.path.join(td, "out.txt")
+        with open(out, "w") as fo:
+            try:
+                subprocess.run([sys.executable, path], stdout=fo, stderr=subprocess.DEVNULL, stdin=subprocess.DEVNULL, timeout=90, start_new_session=True)
+            except subprocess.TimeoutExpired:
+                pass
+        lines = [l for l in open(out, errors="replace").read().splitlines() if l and "leaked" not in l]
+    failed = any(l.startswith("FAIL") for l in lines) or not any(l.startswith("PASS") for l in lines)
+    return {"reproduced": failed, "observed": [l[:300] for l in lines[-2:]], "expected": "the call returns; no exception; no worker spawned into the broken executor"}
+
+
+def h_semlock_registration_fails(i):
+    """F22: SemLock(kind, value, maxvalue, name) with a name the tracker protocol cannot carry (not ASCII): the kernel semaphore is created, the registration
+    raises; the named semaphore must not be left in /dev/shm (there is no object, hence no finalizer, and the tracker does not know it)."""
+    import gc
+    from loky.backend.synchronize import SemLock
+    name = "/loky-v\u00e9rif-%d" % os.getpid()
+    path = "/dev/shm/sem." + name[1:]
+    try:
+        SemLock(1, 1, 1, name=name)
+        outcome = "constructed"
+    except BaseException as e:
+        outcome = f"raised {type(e).__name__}"
+    gc.collect()
+    left = os.path.exists(path)
+    if left:
+        os.unlink(path)
+    return {"reproduced": outcome != "constructed" and left, "observed": {"constructor": outcome, "semaphore_left_in_dev_shm": left},
+            "expected": "either the object is constructed (and finalized later) or the semaphore is unlinked before the error is passed on"}
+
+
+_F23_PROG = 'import os, sys, time, errno, signal, warnings\nsys.path.insert(0, "/repo")\nwarnings.simplefilter("ignore")\nfrom loky.process_executor import ProcessPoolExecutor\ndef alive(pid):\n    try:\n        os.kill(pid, 0)      # a zombie counts: the property counts child processes "zombies included"\n        return True\n    except OSError:\n        return False\nif __name__ == "__main__":\n    ex = ProcessPoolExecutor(max_workers=2)\n    ctx = ex._context\n    real = ctx.Process\n    n = {"k": 0}\n    def flaky(*a, **kw):\n        p = real(*a, **kw)\n        n["k"] += 1\n        if n["k"] == 2:\n            def start():\n                raise OSError(errno.EAGAIN, "Resource temporarily unavailable")   # fault injected: fork refused for the second worker\n            p.start = start\n        return p\n    if os.environ.get("F23_MODE") == "thread":\n        import threading\n        real_start = threading.Thread.start\n        def start(self):\n            if "ExecutorManagerThread" in self.name:\n                raise RuntimeError("can\'t start new thread")      # fault injected: thread limit reached\n            return real_start(self)\n        threading.Thread.start = start\n    else:\n        ctx.Process = flaky\n    try:\n        ex.submit(int, 0)\n        sub = "returned"\n    except (OSError, RuntimeError) as e:\n        sub = "raised " + type(e).__name__\n    ctx.Process = real\n    time.sleep(1.5)          # let the first worker finish its start-up\n    pids = list(ex._processes)\n    has_manager = ex._executor_manager_thread is not None\n    try:\n        ex.shutdown(wait=True)\n        sd = "returned"\n    except BaseException as e:\n        sd = "raised %s(%s)" % (type(e).__name__, e)\n    del ex\n    import gc; gc.collect()\n    time.sleep(2)\n    left = [p for p in pids if alive(p)]\n    print("submit", sub, "| workers started before the failure:", len(pids), "| manager thread started:", has_manager, "| shutdown(wait=True)", sd, "| workers alive 2 s later:", len(left))\n    ok = not left\n    print("PASS" if ok else "FAIL")\n    for p in left:\n        os.kill(p, signal.SIGKILL)\n    os._exit(0 if ok else 1)\n'
+
+
+def h_partial_spawn_failure(i):
+    """F23: first submit of a two-worker executor; the fork of the second worker is refused (EAGAIN, injected): submit raises; after shutdown(wait=True) and
+    release of the executor the first worker must be gone."""
+    import subprocess
+    import tempfile
+    repo = sys.argv[3] if len(sys.argv) > 3 else "/repo"
+    with tempfile.TemporaryDirectory(prefix="f23-") as td:
+        path = os.path.join(td, "prog.py")
+        with open(path, "w") as fh:
+            fh.write(_F23_PROG.replace('"/repo"', repr(repo)))
+        out = os.path.join(td, "out.txt")
+        with open(out, "w") as fo:
+            try:
+                subprocess.run([sys.executable, path], stdout=fo, stderr=subprocess.DEVNULL, stdin=subprocess.DEVNULL, timeout=90, start_new_session=True,
+                               env={**os.environ, "F23_MODE": str(i.get("mode", "fork"))})
+            except subprocess.TimeoutExpired:
+                pass
+        lines = [l for l in open(out, errors="replace").read().splitlines() if l and "leaked" not in l]
+    failed = any(l.startswith("FAIL") for l in lines) or not any(l.startswith("PASS") for l in lines)
+    return {"reproduced": failed, "observed": [l[:300] for l in lines[-2:]], "expected": "no worker of the executor alive after shutdown(wait=True)"}
+
+
+_F24_PROG = 'import os, sys, time, threading, warnings\nsys.path.insert(0, "/repo")\nwarnings.simplefilter("ignore")\nfrom loky.process_executor import ProcessPoolExecutor\nif __name__ == "__main__":\n    ex = ProcessPoolExecutor(max_workers=1)\n    ex.submit(int, 0).result()\n    real = ex._shutdown_lock\n    state = {}\n    class WaitingLock:\n        # schedule made deterministic: while thread B waits for the shutdown lock, thread A runs a complete shutdown(wait=True)\n        def __enter__(self):\n            if threading.current_thread().name == "B" and not state.get("done"):\n                state["done"] = True\n                ta = threading.Thread(target=ex.shutdown, name="A")\n                ta.start(); ta.join(30)\n            return real.__enter__()\n        def __exit__(self, *a):\n            return real.__exit__(*a)\n    ex._shutdown_lock = WaitingLock()\n    out = {}\n    def b():\n        try:\n            ex.shutdown()\n            out["b"] = "returned"\n        except BaseException as e:\n            out["b"] = "raised %s: %s" % (type(e).__name__, e)\n    tb = threading.Thread(target=b, name="B"); tb.start(); tb.join(60)\n    print("second concurrent shutdown():", out.get("b", "hung"))\n    ok = out.get("b") == "returned"\n    print("PASS" if ok else "FAIL")\n    os._exit(0 if ok else 1)\n'
+
+
+def h_concurrent_shutdown(i):
+    """F24: two threads call shutdown(wait=True) on the same executor; the first completes while the second waits for the shutdown lock: the second call
+    must return without raising."""
+    import subprocess
+    import tempfile
+    repo = sys.argv[3] if len(sys.argv) > 3 else "/repo"
+    with tempfile.TemporaryDirectory(prefix="f24-") as td:
+        path = os.path.join(td, "prog.py")
+        with open(path, "w") as fh:
+            fh.write(_F24_PROG.replace('"/repo"', repr(repo)))
+        out = os.path.join(td, "out.txt")
+        with open(out, "w") as fo:
+            try:
+                subprocess.run([sys.executable, path], stdout=fo, stderr=subprocess.DEVNULL, stdin=subprocess.DEVNULL, timeout=120, start_new_session=True)
+            except subprocess.TimeoutExpired:
+                pass
+        lines = [l for l in open(out, errors="replace").read().splitlines() if l and "leaked" not in l]
+    failed = any(l.startswith("FAIL") for l in lines) or not any(l.startswith("PASS") for l in lines)
+    return {"reproduced": failed, "observed": [l[:300] for l in lines[-2:]], "expected": "both calls return"}
+
+
+_F25_PROG = 'import os, sys, time, threading, warnings\nsys.path.insert(0, "/repo")\nwarnings.simplefilter("ignore")\nfrom loky.process_executor import ProcessPoolExecutor\nif __name__ == "__main__":\n    ex = ProcessPoolExecutor(max_workers=1, initializer=len, initargs=(b"x" * 5_000_000,), env={"PYTHONHOME": "/nonexistent-python-home"})\n    out = {}\n    def sub():\n        try:\n            f = ex.submit(int, 0)\n            out["submit"] = "returned"\n            try:\n                f.result(timeout=20)\n                out["future"] = "result"\n            except BaseException as e:\n                out["future"] = type(e).__name__\n        except BaseException as e:\n            out["submit"] = "raised %s" % type(e).__name__\n    t = threading.Thread(target=sub, daemon=True); t.start(); t.join(30)\n    print("submit:", out.get("submit", "blocked for 30 s"), "| future:", out.get("future"))\n    ok = "submit" in out\n    print("PASS" if ok else "FAIL")\n    os._exit(0 if ok else 1)\n'
+
+
+def h_worker_dies_before_reading_payload(i):
+    """F25: a worker whose interpreter dies at start-up (PYTHONHOME pointing nowhere, through env=) before it has read a start-up payload larger than the pipe
+    buffer (5 MB of initargs): submit() must return or raise, and the future must fail, instead of blocking for ever in the payload write."""
+    import subprocess
+    import tempfile
+    repo = sys.argv[3] if len(sys.argv) > 3 else "/repo"
+    with tempfile.TemporaryDirectory(prefix="f25-") as td:
+        path = os.path.join(td, "prog.py")
+        with open(path, "w") as fh:
+            fh.write(_F25_PROG.replace('"/repo"', repr(repo)))
+        out = os.path.join(td, "out.txt")
+        with open(out, "w") as fo:
+            try:
+                subprocess.run([sys.executable, path], stdout=fo, stderr=subprocess.DEVNULL, stdin=subprocess.DEVNULL, timeout=120, start_new_session=True)
+            except subprocess.TimeoutExpired:
+                pass
+        lines = [l for l in open(out, errors="replace").read().splitlines() if l and "leaked" not in l]
+    failed = any(l.startswith("FAIL") for l in lines) or not any(l.startswith("PASS") for l in lines)
+    return {"reproduced": failed, "observed": [l[:300] for l in lines[-2:]], "expected": "submit returns (or raises) within 30 s and the future fails with a BrokenProcessPool error"}
+
+
+_F26_PROG = 'import os, sys, time, signal, threading, warnings\nsys.path.insert(0, "/repo")\nwarnings.simplefilter("ignore")\nfrom loky.process_executor import ProcessPoolExecutor, _CallItem\nif __name__ == "__main__":\n    ex = ProcessPoolExecutor(max_workers=1)\n    ex.submit(int, 0).result()\n    futs = [ex.submit(time.sleep, 30) for _ in range(3)]\n    while not futs[0].running():\n        time.sleep(0.01)\n    time.sleep(0.5)\n    ids = sorted(ex._pending_work_items)\n    fired = {}\n    def cb(f):\n        # schedule made deterministic: the feeder thread\'s error handler (a task that cannot be pickled) runs for another pending item exactly while the\n        # manager thread is failing the pending futures of the broken pool (in a run it is another thread, between two steps of that loop)\n        if not fired and len(ids) == 3:\n            fired["x"] = True\n            try:\n                ex._call_queue._on_queue_feeder_error(ValueError("cannot pickle"), _CallItem(ids[2], int, (), {}))\n            except BaseException as e:\n                fired["err"] = repr(e)\n    for f in futs:\n        f.add_done_callback(cb)\n    mt = ex._executor_manager_thread\n    os.kill(next(iter(ex._processes)), signal.SIGKILL)\n    mt.join(20)\n    states = []\n    for f in futs:\n        try:\n            states.append(type(f.exception(timeout=5)).__name__)\n        except BaseException as e:\n            states.append("unresolved (%s)" % type(e).__name__)\n    print("pending ids:", len(ids), "| handler fired:", bool(fired), fired.get("err"), "| manager thread ended:", not mt.is_alive(), "| futures:", states)\n    ok = (not mt.is_alive()) and all(not s_.startswith("unresolved") for s_ in states) and bool(fired)\n    print("PASS" if ok else "FAIL")\n    for pid in list(ex._processes or {}):\n        try: os.kill(pid, signal.SIGKILL)\n        except OSError: pass\n    os._exit(0 if ok else 1)\n'
+
+
+def h_pending_table_iteration(i):
+    """F26: a one-worker pool with three long tasks breaks (worker SIGKILLed); while the manager thread fails the pending futures one by one, the feeder
+    thread's error handler removes another pending item (forced to happen inside that loop through a done-callback): the manager thread must still fail
+    every future and end."""
+    import subprocess
+    import tempfile
+    repo = sys.argv[3] if len(sys.argv) > 3 else "/repo"
+    with tempfile.TemporaryDirectory(prefix="f26-") as td:
+        path = os.path.join(td, "prog.py")
+        with open(path, "w") as fh:
+            fh.write(_F26_PROG.replace('"/repo"', repr(repo)))
+        out = os.path.join(td, "out.txt")
+        with open(out, "w") as fo:
+            try:
+                subprocess.run([sys.executable, path], stdout=fo, stderr=subprocess.DEVNULL, stdin=subprocess.DEVNULL, timeout=120, start_new_session=True)
+            except subprocess.TimeoutExpired:
+                pass
+        lines = [l for l in open(out, errors="replace").read().splitlines() if l and "leaked" not in l]
+    failed = any(l.startswith("FAIL") for l in lines) or not any(l.startswith("PASS") for l in lines)
+    return {"reproduced": failed, "observed": [l[:400] for l in lines[-2:]], "expected": "every future fails, the manager thread ends"}
+
+
 _F15_PROG = 'import os, sys, time, threading, warnings\nsys.path.insert(0, "/repo")\nwarnings.simplefilter("ignore")\nfrom loky.process_executor import ProcessPoolExecutor\ndef init():\n    import loky.process_executor as pe\n    pe._MAX_MEMORY_LEAK_SIZE = 0          # every memory check finds a "leak": the worker leaves cleanly after announcing its pid\n    pe._MEMORY_LEAK_CHECK_DELAY = 0.2\ndef work(i):\n    import time\n    x = [0] * 200000\n    time.sleep(0.4)\n    return i\nif __name__ == "__main__":\n    errs = []\n    threading.excepthook = lambda a: errs.append((a.thread.name, a.exc_type.__name__, str(a.exc_value)[:80]))\n    ex = ProcessPoolExecutor(max_workers=1, initializer=init)\n    futs = [ex.submit(work, i) for i in range(12)]\n    mode = sys.argv[1] if len(sys.argv) > 1 else "collected"\n    if mode == "collected":\n        del ex                            # the executor object is collected while its futures are pending\n        import gc; gc.collect()\n    res = []\n    for f in futs:\n        try:\n            res.append(f.result(timeout=6))\n        except Exception as e:\n            res.append(type(e).__name__)\n    print("results:", res)\n    print("manager thread errors:", errs)\n    ok = res == list(range(12)) and not errs\n    print("PASS" if ok else "FAIL")\n    os._exit(0 if ok else 1)\n'
 
 
@@ -897,6 +1064,30 @@ def h_respawn_warning_as_error(i):
         lines = [l for l in open(out, errors="replace").read().splitlines() if l and "leaked" not in l]
     failed = any(l.startswith("FAIL") for l in lines) or not any(l.startswith("PASS") for l in lines)
     return {"reproduced": failed, "observed": [l[:300] for l in lines[-3:]], "expected": "results 0..11 and no exception in the manager thread"}
+
+
+_F19_PROG = 'import os, sys, time\nsys.path.insert(0, "/repo")\nfrom loky.process_executor import ProcessPoolExecutor\nfrom loky.backend.reduction import set_loky_pickler, get_loky_pickler_name\ndef which(t):\n    import time\n    from loky.backend.reduction import get_loky_pickler_name\n    time.sleep(t)\n    return get_loky_pickler_name()\nif __name__ == "__main__":\n    ex = ProcessPoolExecutor(max_workers=1)\n    ex.submit(int, 0).result()\n    set_loky_pickler("pickle")\n    futs = [ex.submit(which, 0.3) for _ in range(8)]      # more than the call queue holds (3): the last ones wait in the pending table\n    set_loky_pickler("cloudpickle")                        # selected *after* these submissions\n    got = [f.result(timeout=60) for f in futs]\n    print("pickler used by the worker for each task submitted under \'pickle\':", got)\n    ok = all(g == "pickle" for g in got)\n    print("PASS" if ok else "FAIL: tasks submitted while \'pickle\' was selected ran with another pickler")\n    ex.shutdown(kill_workers=True)\n    os._exit(0 if ok else 1)\n'
+
+
+def h_pickler_recorded_at_dispatch(i):
+    """F19: eight tasks submitted to a one-worker pool while 'pickle' is selected, then set_loky_pickler('cloudpickle'): every one of them must run with
+    'pickle' selected in its worker (the name is what the worker uses to pickle the result)."""
+    import subprocess
+    import tempfile
+    repo = sys.argv[3] if len(sys.argv) > 3 else "/repo"
+    with tempfile.TemporaryDirectory(prefix="f19-") as td:
+        path = os.path.join(td, "prog.py")
+        with open(path, "w") as fh:
+            fh.write(_F19_PROG.replace('"/repo"', repr(repo)))
+        out = os.path.join(td, "out.txt")
+        with open(out, "w") as fo:
+            try:
+                subprocess.run([sys.executable, path], stdout=fo, stderr=subprocess.DEVNULL, stdin=subprocess.DEVNULL, timeout=110, start_new_session=True)
+            except subprocess.TimeoutExpired:
+                pass
+        lines = [l for l in open(out, errors="replace").read().splitlines() if l and "leaked" not in l]
+    failed = any(l.startswith("FAIL") for l in lines) or not any(l.startswith("PASS") for l in lines)
+    return {"reproduced": failed, "observed": [l[:300] for l in lines[-2:]], "expected": "'pickle' for all eight tasks"}
 
 
 def main():
